@@ -520,6 +520,8 @@ def oracle (st : St) (r : Req) : Oracle := fun f σ =>
     let ok := hashOk (curInput r σ).1; [b2n ok, b2n (!ok)]
   | "wire.NewHashFromStr" => let ok := hashOk (r.arg 0); [b2n ok, b2n (!ok)]
   | "input.Vout" | "utx.OutPoint.Index" | "txIn.PreviousOutPoint.Index" => [curIn.2]
+  | "spent[*prevOut] exists" =>          -- the same (txid, vout) earlier in the request's input list
+    [b2n ((r.inputs.take (vget σ "cur.in")).any (fun i => i.1 == (curInput r σ).1 && i.2 == (curInput r σ).2))]
   | "w.txStore.ExistsTx" =>
     if existsTx st curIn.1 curIn.2 then [1, 1, 0, 0, nOutsOf st curIn.1] else [0, 0, Model.Api.E.notFound, 1, 0]
   | "w.txStore.ExistUnminedTx" =>
@@ -695,7 +697,7 @@ def walletsView (st : St) : String :=
 
 /-- base ops of engine led that select a wallet first (WEnv.Use) -/
 def usesWallet (op : String) : Bool :=
-  ["addr", "bal", "abal", "utxos", "sbu", "addrs", "shist", "bhist", "hsbu", "shistp", "bhistp"].contains op
+  ["addr", "bal", "abal", "utxos", "sbu", "addrs", "shist", "bhist", "hsbu", "shistp", "bhistp", "wseq"].contains op
 
 def baseStep (st : St) (args : List String) : St × String :=
   match args with
@@ -726,9 +728,18 @@ def baseStep (st : St) (args : List String) : St × String :=
     let (l, o) := Led.step st.led args
     ({ st with led := l }, o)
 
+/-- the follower's tip is not a block of the node's best chain (a reorganisation it has not been told about) -/
+def diverged (st : St) : Bool :=
+  (st.led.node.blockAt st.led.vol.best.height).map (·.id) != some st.led.vol.best.hash
+
+/-- methods that re-read a previous transaction from the node at the recorded (height, byte range): while the
+    follower has diverged the outcome depends on the byte layout of another block – class `deep` (as in Go) -/
+def staleLoc (m : String) : Bool := ["CreateRawTransaction", "SignRawTransaction", "GetTransactionFee"].contains m
+
 def doCall (st : St) (m : String) (a : List String) : St :=
   let r : Req := ⟨m, a⟩
   let cls := if m = "ImportWallet" then importClass st r else classOf st r
+  let cls := if staleLoc m && diverged st then "deep" else cls
   let st := applyCall st r cls
   { st with last := cls }
 
@@ -745,7 +756,11 @@ def step (st : St) (args : List String) : St × String :=
   | ["rmrun", w] =>
     ({ st with removing := st.removing.filter (· != w), gone := st.gone ++ [w],
                cur := if st.cur = some w then none else st.cur }, "ok\tok")
-  | ["impstep", w] => ({ st with importing := st.importing.filter (· != w) }, "fin\tfin")
+  | ["impstep", w] =>
+    -- spec of the worker step: the harness first delivers the node's tip to the follower (asyncImport refuses a
+    -- batch with ErrImportingContinuable while the follower is on another branch than the node), then one
+    -- batch runs and, on these short chains, finishes; a panic, a hang or an error is a violation
+    ({ st with importing := st.importing.filter (· != w) }, "fin\tfin")
   | ["cur"] => (st, st.cur.getD "-")
   | "x" :: rest =>
     -- robust mode: only "no panic" is observed; wallet selection side effects are still tracked
